@@ -134,6 +134,13 @@ class T(unittest.TestCase):
         # a guard with a call is kept
         self.differ(base, 'def f(self, x):\n    if x.pop():\n        logger.info("a")\n    return x\n')
 
+    def test_shadowed_builtin_is_not_pure(self):
+        a, b = 'def f(x):\n    return x\n', 'def f(x):\n    logger.info("%d", len(x))\n    return x\n'
+        self.same(a, b)
+        self.differ(a, b, head=HEAD + 'def len(x):\n    return x.pop()\n')
+        self.differ(a, b, head=HEAD + 'def g(len):\n    pass\n')
+        self.differ(a, b, head=HEAD + 'from mymod import length as len\n')
+
     def test_other_receivers_are_not_loggers(self):
         base = 'def f(self, x):\n    return x\n'
         for call in ('self.logger.info("a")', 'log.info("a")', 'x.warning("a")', 'logger.setLevel(10)',
